@@ -34,6 +34,7 @@ import RattrProofs.Lemmas.RootContext
 import RattrProofs.Lemmas.FileAnalyser
 import RattrProofs.Lemmas.C17Options
 import RattrModel.Generated.C17
+import RattrModel.FnVisitSites
 
 namespace Rattr.C17
 open Rattr Rattr.FnA Rattr.Strs
@@ -1076,5 +1077,171 @@ example : plainL modNested = true ∧ regularL modNested = true ∧
 example : ∀ x ∈ defNamesL modNested, ∀ r, compile { excluded := [S "deep"] } [] modNested = .ok r →
     Context.contains r.ctx (withoutCallBrackets x) = true :=
   fun x hx r h => rootContext_binds_all_defs _ [] modNested r (by decide) (by decide) h x hx
+
+end Rattr.C17
+
+
+/-! ## Round 4: where inside a statement a binding / an unbound load sits
+
+`(x := e).a` / `(x := e)[i]` / `*(x := e)` — the value under a chain link that is a walrus is named by the literal
+stand-in `@NamedExpr` (so the link never warns) and IS visited (`visit_compound_name`: a `NamedExpr` is not an
+`AstNodeWithName`), hence `x` is registered; keyword values (and `**` operands) of a call are visited after the
+positional arguments by each of the three hand-written argument loops (`visit_Call`, `visit_ClassAssign`,
+`visit_ReturnValue`). Tie A pins the loops, the three method bodies and `AstNodeWithName`
+(`RattrModel/FnVisitSites.lean`); the harness side is py/props/c17pos.py + py/props/c17order.py. -/
+
+namespace Rattr.C17
+open Rattr Rattr.FnA Rattr.Strs
+
+/-- the literal stand-in a walrus is named by: `@NamedExpr`. -/
+def walrusName : Str := '@' :: "NamedExpr".toList
+
+theorem safeName_walrus (t v : Node) : safeName (.walrus t v) = walrusName := rfl
+
+theorem C17_walrus_base_name_attr (t v : Node) (a : Str) (c : ECtx) :
+    namesOf true (.attr (.walrus t v) a c) = .ok walrusName (walrusName ++ '.' :: a) := by
+  simp [namesOf, safeName_walrus]
+
+theorem C17_walrus_base_name_sub (t v sl : Node) (c : ECtx) :
+    namesOf true (.sub (.walrus t v) sl c) = .ok walrusName (walrusName ++ lit "[]") := by
+  simp [namesOf, safeName_walrus]
+
+theorem C17_walrus_base_name_starred (t v : Node) (c : ECtx) :
+    namesOf true (.starred (.walrus t v) c) = .ok walrusName ('*' :: walrusName) := by
+  simp [namesOf, safeName_walrus]
+
+theorem walrusName_literal : startsWith walrusName ['@'] = true := by decide
+
+theorem C17_walrus_base_attr_visits_walrus (env : Env) (mn : Str) (t v : Node) (a : Str) (c : ECtx) (s : St) :
+    visit env mn (.attr (.walrus t v) a c) s
+      = (visit env mn (.walrus t v) s >>>= fun s' =>
+          .ok (updateResults s' ⟨walrusName ++ '.' :: a, walrusName⟩ c)) := by
+  rw [visit.eq_def]
+  simp only []
+  rw [C17_literal_never_warns s _ c _ _ _ (C17_walrus_base_name_attr t v a c) walrusName_literal]
+  simp [Node.isNameable]
+
+theorem C17_walrus_base_sub_visits_walrus (env : Env) (mn : Str) (t v sl : Node) (c : ECtx) (s : St) :
+    visit env mn (.sub (.walrus t v) sl c) s
+      = (visit env mn (.walrus t v) s >>>= fun s' =>
+          .ok (updateResults s' ⟨walrusName ++ lit "[]", walrusName⟩ c)) := by
+  rw [visit.eq_def]
+  simp only []
+  rw [C17_literal_never_warns s _ c _ _ _ (C17_walrus_base_name_sub t v sl c) walrusName_literal]
+  simp [Node.isNameable]
+
+theorem C17_walrus_base_starred_visits_walrus (env : Env) (mn : Str) (t v : Node) (c : ECtx) (s : St) :
+    visit env mn (.starred (.walrus t v) c) s
+      = (visit env mn (.walrus t v) s >>>= fun s' =>
+          .ok (updateResults s' ⟨'*' :: walrusName, walrusName⟩ c)) := by
+  rw [visit.eq_def]
+  simp only []
+  rw [C17_literal_never_warns s _ c _ _ _ (C17_walrus_base_name_starred t v c) walrusName_literal]
+  simp [Node.isNameable]
+
+/-- `(x := v)` with nothing special on the right (no lambda; the diversion hands back to generic_visit): `x` is
+registered BEFORE target and value are visited, no diagnostic is emitted by the registration. -/
+theorem C17_walrus_registers (env : Env) (mn : Str) (x : Str) (v : Node) (s s1 : St)
+    (hl : lambdaInRhs v = false)
+    (h : assignDiv env mn [.name x .store] v { s with sets := addTo s.sets ⟨x, x⟩ } = .generic s1) :
+    visit env mn (.walrus (.name x .store) v) s
+        = (visit env mn (.name x .store) s1 >>>= fun s => visit env mn v s) ∧
+      Context.contains s1.ctx x = true ∧ s1.diags = s.diags := by
+  have hr := C17_assign_registers_before_visit env mn _ v _ s1 h
+  refine ⟨?_, hr.1 _ (List.mem_singleton.mpr rfl) [x] (unravelNames_name x .store) x (List.mem_singleton.mpr rfl), hr.2⟩
+  rw [visit.eq_def]
+  simp only [namesOf, liftName, hl, Bool.false_eq_true, if_false, FnA.bind, h]
+
+
+/-! #### TESTS (kernel evaluation of `FnA.analyse` on minimal bodies) for the walrus-as-chain-base and keyword-argument sites -/
+
+def cSym : Sym := { kind := .cls, name := S "C", callable := true, iface := some ⟨[], [S "self", S "x"], none, [], some (S "kw")⟩ }
+/-- module level: the function `f`, the builtin `K` and a class `C`. -/
+def root2 : Context := [[(S "f", fSym), (S "K", kSym), (S "C", cSym)]]
+def run2 (ps : List String) (body : List Node) : Option (List Str) :=
+  undefs (analyse env1 [] root2 (P ps) body)
+def wal (x : String) (v : Node) : Node := .walrus (.name (S x) .store) v
+def callN (f : String) (args : List Node) (kws : List (String × Node)) : Node :=
+  .call (ld (S f)) args (kws.map fun p => some (S p.1)) (kws.map (·.2))
+
+/-- TEST: `def w(a): (n := a).p; n.u` — the walrus under the attribute is visited, `n` is bound afterwards. -/
+theorem C17_test_walrus_attr_base :
+    run2 ["a"] [.attr (wal "n" (ld (S "a"))) (S "p") .load, at' "n" "u"] = some [] := by decide +kernel
+
+/-- TEST: `def w(a): (n := a.v)[0]; n.u`. -/
+theorem C17_test_walrus_item_base :
+    run2 ["a"] [.sub (wal "n" (at' "a" "v")) .const .load, at' "n" "u"] = some [] := by decide +kernel
+
+/-- TEST: `def w(a): f(*(n := a)); n.u`. -/
+theorem C17_test_walrus_starred_base :
+    run2 ["a"] [callN "f" [.starred (wal "n" (ld (S "a"))) .load] [], at' "n" "u"] = some [] := by decide +kernel
+
+/-- TEST: `def w(a): f(a, z=(n := a.v)); n.u` — keyword values of an ordinary call are visited. -/
+theorem C17_test_walrus_keyword_of_function :
+    run2 ["a"] [callN "f" [ld (S "a")] [("z", wal "n" (at' "a" "v"))], at' "n" "u"] = some [] := by decide +kernel
+
+/-- TEST: `def w(a): i = C(a, k=(n := a.v)); n.u` — keyword values of a stored class instantiation are visited
+(visit_ClassAssign), the walrus is registered. -/
+theorem C17_test_walrus_keyword_of_class_assign :
+    run2 ["a"] [.assign [.name (S "i") .store] (callN "C" [ld (S "a")] [("k", wal "n" (at' "a" "v"))]), at' "n" "u"]
+      = some [] := by decide +kernel
+
+/-- TEST: `def w(a): i = C(a, k=m.o)` — an undefined name in a keyword value of a stored class instantiation warns. -/
+theorem C17_test_undefined_in_keyword_of_class_assign :
+    run2 ["a"] [.assign [.name (S "i") .store] (callN "C" [ld (S "a")] [("k", at' "m" "o")])] = some [S "m"] := by
+  decide +kernel
+
+/-- TEST: `def w(a): a.i = C(a, k=m.o, **q)` — attribute target, `**` operand. -/
+theorem C17_test_undefined_in_double_star_of_class_assign :
+    run2 ["a"] [.assign [at' "a" "i" .store]
+        (.call (ld (S "C")) [ld (S "a")] [some (S "k"), none] [at' "m" "o", ld (S "q")])] = some [S "m", S "q"] := by
+  decide +kernel
+
+/-- TEST: `def w(a): return C(a, k=m.o)` (visit_ReturnValue) and `C(a, k=m.o)` discarded (visit_Call). -/
+theorem C17_test_undefined_in_keyword_of_returned_and_discarded_class :
+    run2 ["a"] [.ret [callN "C" [ld (S "a")] [("k", at' "m" "o")]]] = some [S "m"] ∧
+    run2 ["a"] [callN "C" [ld (S "a")] [("k", at' "m" "o")]] = some [S "m"] := by decide +kernel
+
+/-- TEST: `def w(a): i = C((n := a), k=n.u)` — a later keyword sees the walrus of an earlier argument. -/
+theorem C17_test_walrus_argument_then_keyword :
+    run2 ["a"] [.assign [.name (S "i") .store] (callN "C" [wal "n" (ld (S "a"))] [("k", at' "n" "u")])]
+      = some [] := by decide +kernel
+
+/-- `def w(a, b): r = {b.k: (n := a), n.u: 1}` — Python evaluates key, value, key, value; the visitor goes through all
+keys first, so the later key `n.u` is answered with a warning although the walrus in the earlier value has bound `n`
+(known finding `…same-statement:Dict.values-then-keys`). -/
+theorem C17_cex_dict_value_walrus_then_key :
+    run2 ["a", "b"] [.assign [.name (S "r") .store]
+        (.dict [at' "b" "k", at' "n" "u"] [wal "n" (ld (S "a")), .const])] = some [S "n"] := by decide +kernel
+
+/-! #### Tie A: the traversal sites of `FunctionAnalyser` -/
+
+/-- Tie A: `AstNodeWithName` is exactly the five classes `Node.isNameable` accepts (no `NamedExpr`). -/
+theorem tieA_nameable_classes : Generated.C17.astNodeWithName = FnSites.nameableClasses := by decide
+
+/-- Tie A: every hand-written `for` loop of `FunctionAnalyser` (which arguments / keywords / targets are visited, in
+which order) is the one the model transcribes. -/
+theorem tieA_visit_loops : Generated.C17.visitLoops = FnSites.visitLoops := by decide +kernel
+
+/-- Tie A: `get_and_verify_name`, `visit_compound_name`, `visit_NamedExpr` statement by statement. -/
+theorem tieA_name_site_bodies : Generated.C17.nameSiteBodies = FnSites.nameSiteBodies := by decide +kernel
+
+/-- every node the model treats as nameable has one of the class names of the table … -/
+theorem isNameable_classes (n : Node) (h : n.isNameable = true) :
+    ∃ c, c ∈ FnSites.nameableClasses ∧ n.className = c.toList := by
+  cases n
+  case name => exact ⟨"Name", by decide, rfl⟩
+  case attr => exact ⟨"Attribute", by decide, rfl⟩
+  case sub => exact ⟨"Subscript", by decide, rfl⟩
+  case starred => exact ⟨"Starred", by decide, rfl⟩
+  case call => exact ⟨"Call", by decide, rfl⟩
+  all_goals (simp [Node.isNameable] at h)
+
+/-- … and a walrus is not: its value under a chain link is visited. -/
+theorem walrus_not_nameable (t v : Node) :
+    (Node.walrus t v).isNameable = false ∧ "NamedExpr" ∉ FnSites.nameableClasses := by
+  constructor
+  · rfl
+  · decide
 
 end Rattr.C17
